@@ -492,6 +492,9 @@ func (g *c12Gen) histories() {
 				a.Tag, a.Mut, a.MustFail = flipBit(r, a.Tag), "data-bit", true
 				atoms = append(atoms, a)
 			}
+			// the producer path on the same wrapper object (apu ≠ apv, and one-sided)
+			atoms = append(atoms, c12Case{Prim: "ecdhes", Op: "produce", Alg: alg, Crv: crv, KeyTyp: typ, Priv: priv, Pub: pool[1][1], Enc: c12Encs[alg], APU: []byte("Alice"), APV: []byte("Bob")})
+			atoms = append(atoms, c12Case{Prim: "ecdhes", Op: "produce", Alg: alg, Crv: crv, KeyTyp: typ, Priv: priv, Pub: pool[2][1], Enc: c12Encs[alg+1], APU: nil, APV: r.Bytes(3)})
 			emit("ecdhes", fmt.Sprintf("mode%d-%s", alg, crv), atoms, nil)
 		}
 	}
